@@ -67,9 +67,14 @@ Wanted(v) ==
 \* known finding F-C06a: IPv6 CONNECT carries only the first 4 address bytes
 AsIsTruncV6(v) == <<5, 1, 0, 4>> \o SubSeq(v.addr, 1, 4) \o <<v.port \div 256, v.port % 256>>
 
+\* v.sel: the server's method-selection message ("ok"/"split": no authentication, whole or in two
+\* segments; anything else: another method, no acceptable method, a wrong version)
+Selected(v) == v.sel \in {"ok", "split"}
 Holds(v) ==
   /\ v.first = Greeting
-  /\ IF Encodable(v)
+  /\ v.mid = <<>>                       \* nothing is sent on a partial selection message
+  /\ IF ~Selected(v) THEN v.second = <<>>      \* no request unless 'no authentication' was selected
+     ELSE IF Encodable(v)
      THEN /\ v.second \in Wanted(v)
           /\ LET p == ParseReq(v.second) IN p.ok /\ p.extra = 0 /\ p.cmd = CmdOf(v.req)
      ELSE \* refused: nothing beyond the greeting, and an error surfaced - or, for a reverse lookup of a
